@@ -13,7 +13,10 @@ For every generated module (harness/c20_gen.py: harness/c15_gen with respelled i
     inside the theorems' domain - the model with the spec;
   * the exhaustive part (harness/c20_sweep.py): every offset and every truncation of the cursor's line, maxfixes
     0/1/3, both later_locals values, the five entry points, resource=None: no internal error.
-Streams: "main" (inside C15's fragment by construction), "plus" (one or two PyF+ productions switched on).
+Streams: "main" (inside C15's fragment by construction), "plus" (one or two PyF+ productions switched on),
+"scenario" (harness/c20_gen.gen_scenario: names imported from a module that exists in the project, dedented
+continuation lines inside methods, comparisons as call arguments of a callee with a like-named parameter, blanks and
+line breaks after the dot of an attribute access on a statically known receiver).
 """
 import ast
 import json
@@ -203,6 +206,18 @@ def value_on_statement_line(tree):
     return True
 
 
+def ensure_helper_module():
+    """the scenario stream imports from a module that exists in the scratch project (at its root)"""
+    c15.project()
+    path = os.path.join(c15._project_dir, c20_gen.HELPER_MODULE + ".py")
+    if not os.path.exists(path):
+        with open(path, "w") as f:
+            f.write(c20_gen.HELPER_SOURCE)
+
+
+HELPERS = {c20_gen.HELPER_MODULE: c20_gen.HELPER_SOURCE}
+
+
 def check_module(args):
     """worker: (index, src, stream, do_sweep, sweep_full) -> result dict (picklable)"""
     idx, src, stream, do_sweep, sweep_full = args
@@ -214,6 +229,7 @@ def check_module(args):
         cnt[k] = cnt.get(k, 0) + n
 
     try:
+        ensure_helper_module()
         try:
             o15 = c15.observe(src)
         except Exception as e:  # noqa: BLE001 - C15's own open finding (superclass inference crash) or worse
@@ -233,7 +249,7 @@ def check_module(args):
 
 def _check_observed(src, o15, res, count):
     tr = o15.tr
-    orc = c20_oracle.Oracle(src, o15)
+    orc = c20_oracle.Oracle(src, o15, HELPERS)
     rp = observe_rope(src)
     res["exceptions"].extend(rp["exc"])
     defs = observe_definitions(src, tr.tree)
@@ -287,6 +303,15 @@ def _check_observed(src, o15, res, count):
                 if isinstance(got, set) and any(sc == "keyword" for (_n, sc) in got):
                     res["problems"].append({"focus": "keyword-proposal-after-dot", "offset": o,
                                             "later_locals": ll, "detail": repr(sp)})
+        if pos.dotted and not pos.in_ignored and not pos.from_import and pos.receiver is not None:
+            for ll, got in ((True, pt), (False, pf)):
+                if isinstance(got, set):
+                    probs = orc.judge_dotted(pos, got)
+                    if probs is not None:
+                        count("offsets:dotted-with-static-receiver")
+                        for pb in probs:
+                            res["problems"].append({"focus": "dotted:" + pb[0], "offset": o, "later_locals": ll,
+                                                    "detail": repr(pb[1:])})
         if pos.dotted or pos.from_import or pos.in_ignored or not pos.name_position:
             count("offsets:oracle-prefix-only")
             cls = "dotted" if pos.dotted else ("from-import" if pos.from_import else (
@@ -344,8 +369,8 @@ def _check_observed(src, o15, res, count):
     # ---- the Coq case
     model_ok = not (o15.unknown_owner or not c15.simple_bases(o15))
     res["model_domain"] = model_ok
-    if not src.isascii():
-        model_ok = False
+    if not src.isascii() or orc.star_names:
+        model_ok = False                 # names brought by a star import that resolves are not in the model's tables
     if model_ok:
         res["case"] = case_term(src, o15, rp, items, gdefs)
         res["n_items"] = len(items)
@@ -520,10 +545,15 @@ def run(ctx):
         s = c20_gen.gen_source(ctx.rng, feats, size)
         if s:
             sources.append((s, "plus"))
+    for i in range(ctx.scale(5, 40)):
+        s, star = c20_gen.gen_scenario(ctx.rng, star=(i % 3 == 2))
+        if s:
+            sources.append((s, "scenario-star" if star else "scenario"))
     tasks = []
     swept = 0
     for i, (s, stream) in enumerate(sources):
-        do_sweep = stream == "fixed" or (stream == "main" and swept < sweep_all)
+        do_sweep = stream == "fixed" or (stream == "main" and swept < sweep_all) or (
+            stream.startswith("scenario") and i % 2 == 0)
         swept += 1 if (do_sweep and stream == "main") else 0
         tasks.append((i, s, stream, do_sweep, True))
     c15.close_project()
